@@ -28,6 +28,7 @@ type input struct {
 	Ops       []udpx.Op     `json:"ops"`
 	Listeners int           `json:"listeners,omitempty"` // UDP listeners of the service (one handler), default 1
 	NoExpiry  bool          `json:"no_expiry,omitempty"` // the history is shorter than the timeout: no association can end
+	Manager   bool          `json:"via_manager,omitempty"` // the handler reads from a listener-manager handle (the shared socket's reader sits in between), as in the server
 }
 
 // clientKey: client i always uses key i (so a misdelivered reply cannot be decrypted by accident)
@@ -133,7 +134,7 @@ func scenario(name string, in input, sequential bool) *engine.Scenario {
 	tr := &udpx.Trace{}
 	sc := &engine.Scenario{Name: name, Opt: vrt.Options{Horizon: udpx.Horizon}}
 	sc.Body = func() {
-		udpx.Run(udpx.Config{Keys: udpx.DefaultKeys(), NatTimeout: in.Timeout, Listeners: in.Listeners, DualStack: in.Listeners <= 1}, in.Ops, tr)
+		udpx.Run(udpx.Config{Keys: udpx.DefaultKeys(), NatTimeout: in.Timeout, Listeners: in.Listeners, DualStack: in.Listeners <= 1 && !in.Manager, ViaManager: in.Manager}, in.Ops, tr)
 	}
 	sc.Check = func(x *vrt.Exec) (string, bool, []*engine.Finding) {
 		fs := hk.Generic(x, hk.Opts{})
@@ -211,6 +212,8 @@ func menu() []udpx.Op {
 	m = append(m, udpx.Op{K: "R", C: 0, T: 2, N: 10}, udpx.Op{K: "S", C: 0, Key: 0, T: 1, N: 7, Mod: "flip"})
 	// a reply too large to be relayed (the association stays)
 	m = append(m, udpx.Op{K: "R", C: 0, T: 1, N: 65490})
+	// an empty reply (delivered like any other)
+	m = append(m, udpx.Op{K: "R", C: 1, T: 1, N: 0})
 	m = append(m, udpx.Op{K: "A", D: 9 * time.Second}, udpx.Op{K: "A", D: 11 * time.Second})
 	return m
 }
@@ -295,6 +298,35 @@ func init() {
 			in := input{Timeout: 300 * time.Second, Ops: ops}
 			ctx.RunCase("nat-seq-dns", "Q", scenario("nat-seq-dns", in, true), in, nil)
 		}
+		// the way the server wires it: the handler reads from a listener-manager handle; three clients
+		// interleaved, replies, expiry
+		mm := []udpx.Op{{K: "S", C: 0, Key: 0, T: 1, N: 20}, {K: "S", C: 1, Key: 1, T: 1, N: 21}, {K: "S", C: 2, Key: 2, T: 2, N: 22},
+			{K: "R", C: 0, T: 1, N: 16}, {K: "R", C: 1, T: 1, N: 17}, {K: "A", D: 9 * time.Second}, {K: "A", D: 11 * time.Second}}
+		md := 4
+		if ctx.Tier == "thorough" {
+			md = 5
+		}
+		mtotal := int64(1)
+		for i := 0; i < md; i++ {
+			mtotal *= int64(len(mm))
+		}
+		for code := int64(0); code < mtotal; code++ {
+			if !ctx.Mine(code) {
+				continue
+			}
+			ops := make([]udpx.Op, md)
+			c := code
+			for i := 0; i < md; i++ {
+				ops[i] = mm[c%int64(len(mm))]
+				c /= int64(len(mm))
+			}
+			if ctx.Expired() {
+				ctx.Incomplete("nat-seq-mgr", "nat-seq-mgr: time cap hit at sequence %d of %d", code, mtotal)
+				break
+			}
+			in := input{Timeout: 10 * time.Second, Ops: ops, Manager: true}
+			ctx.RunCase("nat-seq-mgr", "Q", scenario("nat-seq-mgr", in, true), in, nil)
+		}
 		// three datagrams of one client with gaps g1, g2 < timeout (every pair of whole seconds, and
 		// of half seconds in the thorough tier): one source, and a reply after the third is relayed
 		step := time.Second
@@ -307,6 +339,10 @@ func init() {
 				gidx++
 				if !ctx.Mine(gidx) {
 					continue
+				}
+				if ctx.Expired() {
+					ctx.Incomplete("nat-gaps", "nat-gaps: time cap hit at pair %d", gidx)
+					break
 				}
 				in := input{Timeout: 10 * time.Second, Ops: []udpx.Op{{K: "S", C: 0, Key: 0, T: 1, N: 20}, {K: "A", D: g1}, {K: "S", C: 0, Key: 0, T: 2, N: 8},
 					{K: "A", D: g2}, {K: "S", C: 0, Key: 0, T: 1, N: 12}, {K: "R", C: 0, T: 1, N: 16}}}
@@ -322,7 +358,7 @@ func init() {
 		}
 	})
 	hk.Replayers["C04"] = func(ctx *engine.Ctx, rp engine.Replay) []*engine.Finding {
-		if rp.Unit == "nat-seq" || rp.Unit == "nat-seq-dns" || rp.Unit == "nat-gaps" {
+		if rp.Unit == "nat-seq" || rp.Unit == "nat-seq-dns" || rp.Unit == "nat-gaps" || rp.Unit == "nat-seq-mgr" {
 			var in input
 			if err := json.Unmarshal(rp.Input, &in); err != nil {
 				return []*engine.Finding{{Sig: "BROKEN:bad-input", Msg: err.Error()}}
